@@ -306,7 +306,7 @@ impl Property for C14 {
         ]
     }
     fn expected_probes(&self) -> Vec<&'static str> {
-        vec!["sna_loaded", "szx_loaded", "szx_compressed_page", "szx_unknown_chunk", "dirty_receiver", "ay_twin_compared", "halted_flag", "eilast_flag", "encodings_compared", "mismatch_rejected", "scr_loaded", "presence_checked", "locked_file", "display_checked", "display_other_bank_checked", "same_file_loaded_twice", "receiver_with_ay_disabled", "szx_frame_position_above_65535", "szx_big_unknown_chunk", "szx_zlib_stream_of_page_size"]
+        vec!["sna_loaded", "szx_loaded", "szx_compressed_page", "szx_unknown_chunk", "dirty_receiver", "ay_twin_compared", "halted_flag", "eilast_flag", "encodings_compared", "mismatch_rejected", "scr_loaded", "presence_checked", "locked_file", "display_checked", "display_other_bank_checked", "same_file_loaded_twice", "receiver_with_ay_disabled", "szx_frame_position_above_65535", "szx_big_unknown_chunk", "szx_zlib_stream_of_page_size", "halted_flag_inside_int_pulse"]
     }
 
     fn gen(&self, rng: &mut Rng, _tier: Tier, idx: u64) -> Scenario {
@@ -662,12 +662,19 @@ impl Property for C14 {
                     s.cpu.im = 2;
                     s.cpu.i = 0xBE;
                     s.halted = true;
-                    s.frame_t = 40_000; // INT not active now
+                    // the snapshot was taken far from the interrupt, or while the INT pulse of the frame was active (the
+                    // halted CPU is then woken at the first instruction boundary after the load)
+                    let in_pulse = (sc.get("seed") >> 17) & 1 == 1;
+                    s.frame_t = if in_pulse { (sc.get("seed") >> 18) as u32 % 28 } else { 40_000 };
+                    if in_pulse {
+                        ctx.probe("halted_flag_inside_int_pulse");
+                    }
+                    let rdirt = if (sc.get("seed") >> 24) & 1 == 1 { 1 } else { 0 }; // receiver that has executed a HALT of its own
                     let mut verdicts = vec![];
                     for conv in 0..2 {
                         s.cpu.pc = if conv == 0 { halt_at + 1 } else { halt_at };
                         let bytes = write_szx(&s, &szx_opt(&mut orng, false));
-                        let mut e = mk(m128, 0, &mut fresh, false, false);
+                        let mut e = mk(m128, rdirt, &mut fresh, false, false);
                         match load(&mut e, 1, &bytes, chunk) {
                             Err(pi) => return Err(Fail::new("C14.panic", &format!("format=szx,at={}", crate::runner::panic_site(&pi)), format!("loading an SZX file with HALTED set panicked: {}", pi.msg))),
                             Ok(Err(x)) => return Err(Fail::new("C14.rejected", "format=szx,flag=halted", format!("a well-formed SZX file with HALTED set was rejected: {}", x))),
@@ -676,7 +683,7 @@ impl Property for C14 {
                         // until the interrupt: PC does not move, only R and time advance
                         let before = cpu_state(&mut e);
                         let mut ok = true;
-                        for _ in 0..50 {
+                        for _ in 0..if in_pulse { 0 } else { 50 } {
                             let _ = step_public(&mut e);
                             let mut now = cpu_state(&mut e);
                             now.r = before.r;
